@@ -28,7 +28,13 @@ def regen_and_tie(R):
     }
     for frag, (lemma, body) in ties.items():
         if status.get(frag) != 'translated':
+            # on the unchanged tree all three fragments are translated and tied; a fragment the fail-closed translator
+            # can no longer read is a tie that no longer checks (the search below then looks for a failing input)
             R.notes.append(f'{frag}: {status.get(frag)} — tied by behavioural correspondence only')
+            R.obligations.append({'name': lemma, 'file': 'Gen/ExcerptGen.v', 'status': 'failed', 'kind': 'tie', 'fragment': frag})
+            R.broken.append({'kind': 'tie', 'name': f'translate.py:{frag}',
+                             'detail': f'the source of {frag} is no longer in the translatable fragment ({status.get(frag)}): '
+                                       'the generated-from-source tie to ExcerptModel.v cannot be established'})
             continue
         rel = f'Gen/TieExcerpt_{frag.strip("_")}.v'
         src = ('(* GENERATED: tie between Gen/ExcerptGen.v (translated from /repo) and ExcerptModel.v *)\n'
@@ -65,6 +71,15 @@ def cases(tier, rnd, widen=False):
                 places = [places[(L + c) % 4], places[1]] if (L + c) % 4 != 1 else [places[1]]
             for pl, text, off in places:
                 yield f'L{L}c{c}{pl}', text, off + c
+    # characters that str.splitlines() treats as line boundaries but that are NOT line breaks for the property
+    exotic = '\r\x0b\x0c\x1c\x1d\x1e\x85\u2028\u2029'
+    for k, ch in enumerate(exotic):
+        for pre in ('', 'ab', 'a\nb'):
+            for post in ('c', 'cd\nef', 'c' * 70):
+                text = pre + ch + post
+                for i in range(len(text)):
+                    if text[i] != '\n' and text[i] not in exotic:
+                        yield f'exotic{k}', text[:i] + 'X' + text[i + 1:], i
     # random multi-line texts
     n = 3000 if tier == 'quick' else 30000
     for k in range(n):
@@ -155,7 +170,7 @@ def run(R):
             R.count('sweep' if not label.startswith('rnd') else 'random', key)
             mlc = m['lc']
             mex = ''.join(chr(x) for x in m['ex'])
-            mbw = bytes(m['bw'])
+            mbw = bytes(m['bw']) if all(x < 256 for x in m['bw']) else b''
             case = {'text': text, 'index': index, 'label': label}
             if len(R.samples) < 6 and (label.startswith('L100c70') or label.startswith('rnd1')):
                 R.samples.append({'case': case, 'implementation': obs, 'model': {'lc': mlc, 'excerpt': mex}})
